@@ -9,6 +9,7 @@ package batchprocessor
 // of configurations incl. metadata keys and cardinality limit.
 
 import (
+	"errors"
 	"context"
 	"encoding/json"
 	"fmt"
@@ -48,6 +49,9 @@ type c17Batch struct {
 	size  int
 }
 
+// c17NextErr: what the downstream consumer answers for the call in progress (set by the sink)
+var c17NextErr error
+
 type c17Signal struct {
 	Name string
 	// New builds the processor around a sink; returns consume(shape, ctx) -> (ids, error), start, shutdown
@@ -69,7 +73,7 @@ func c17LogsItems(ld plog.Logs) []string {
 }
 
 var c17Logs = &c17Signal{Name: "logs", New: func(cfg *Config, sink func([]string, context.Context)) (func(context.Context, c17Shape, *int) ([]string, error), func() error, func() error, error) {
-	next, _ := consumer.NewLogs(func(ctx context.Context, ld plog.Logs) error { sink(c17LogsItems(ld), ctx); return nil })
+	next, _ := consumer.NewLogs(func(ctx context.Context, ld plog.Logs) error { c17NextErr = nil; sink(c17LogsItems(ld), ctx); return c17NextErr })
 	p, err := newLogsBatchProcessor(processortest.NewNopSettings(processortest.NopType), next, cfg)
 	if err != nil {
 		return nil, nil, nil, err
@@ -111,7 +115,7 @@ func c17TracesItems(td ptrace.Traces) []string {
 }
 
 var c17Traces = &c17Signal{Name: "traces", New: func(cfg *Config, sink func([]string, context.Context)) (func(context.Context, c17Shape, *int) ([]string, error), func() error, func() error, error) {
-	next, _ := consumer.NewTraces(func(ctx context.Context, td ptrace.Traces) error { sink(c17TracesItems(td), ctx); return nil })
+	next, _ := consumer.NewTraces(func(ctx context.Context, td ptrace.Traces) error { c17NextErr = nil; sink(c17TracesItems(td), ctx); return c17NextErr })
 	p, err := newTracesBatchProcessor(processortest.NewNopSettings(processortest.NopType), next, cfg)
 	if err != nil {
 		return nil, nil, nil, err
@@ -182,7 +186,7 @@ func c17MetricsItems(md pmetric.Metrics) []string {
 }
 
 var c17Metrics = &c17Signal{Name: "metrics", New: func(cfg *Config, sink func([]string, context.Context)) (func(context.Context, c17Shape, *int) ([]string, error), func() error, func() error, error) {
-	next, _ := consumer.NewMetrics(func(ctx context.Context, md pmetric.Metrics) error { sink(c17MetricsItems(md), ctx); return nil })
+	next, _ := consumer.NewMetrics(func(ctx context.Context, md pmetric.Metrics) error { c17NextErr = nil; sink(c17MetricsItems(md), ctx); return c17NextErr })
 	p, err := newMetricsBatchProcessor(processortest.NewNopSettings(processortest.NopType), next, cfg)
 	if err != nil {
 		return nil, nil, nil, err
@@ -264,6 +268,10 @@ type c17Case struct {
 	Limit      uint32      `json:"metadata_cardinality_limit"`
 	Producers  [][]c17Send `json:"producers"`
 	Concurrent bool        `json:"shutdown_concurrent"`
+	// SinkFail: the downstream consumer refuses its k-th call (1-based) for every k listed. What a refused batch held is
+	// outside the conservation clause ("provided downstream accepts it"); everything else - also the timely emission of
+	// what arrives AFTER a refused batch - still holds
+	SinkFail []int `json:"downstream_refuses_calls,omitempty"`
 }
 
 type c17Obs struct {
@@ -302,6 +310,7 @@ func c17Body(c *c17Case, o *c17Obs) func() {
 		vs.CPUs = 1
 		t0 := vs.Now()
 		emitted := map[string]bool{}
+		sinkCalls := 0
 		cfg := &Config{SendBatchSize: c.Size, SendBatchMaxSize: c.Max, Timeout: time.Duration(c.TimeoutMs) * time.Millisecond, MetadataKeys: c.Keys, MetadataCardinalityLimit: c.Limit}
 		consume, start, shutdown, err := c17Signals[c.Signal].New(cfg, func(items []string, ctx context.Context) {
 			if vs.Killed() {
@@ -310,6 +319,12 @@ func c17Body(c *c17Case, o *c17Obs) func() {
 			md := ""
 			if len(c.Keys) > 0 {
 				md = c17MDString(client.FromContext(ctx).Metadata.Get(c.Keys[0]))
+			}
+			sinkCalls++
+			for _, k := range c.SinkFail {
+				if k == sinkCalls {
+					c17NextErr = errors.New("downstream refused the batch")
+				}
 			}
 			o.batches = append(o.batches, c17Batch{items: items, md: md, at: vs.Now().Sub(t0), size: len(items)})
 			for _, it := range items {
@@ -454,6 +469,9 @@ func c17Body(c *c17Case, o *c17Obs) func() {
 
 func c17Check(c *c17Case, o *c17Obs) (string, string) {
 	desc := fmt.Sprintf("signal=%s size=%d max=%d timeout=%dms keys=%v limit=%d producers=%v concurrent=%v", c.Signal, c.Size, c.Max, c.TimeoutMs, c.Keys, c.Limit, c.Producers, c.Concurrent)
+	if len(c.SinkFail) > 0 {
+		desc += fmt.Sprintf(" downstream-refuses-calls=%v", c.SinkFail)
+	}
 	if !o.finished {
 		return "unfinished", desc
 	}
@@ -746,6 +764,15 @@ func TestVerif(t *testing.T) {
 	// value lists that differ only in how they are cut: two values vs one value with a comma; no value vs the empty value
 	cases = append(cases, &c17Case{Signal: "logs", Size: 2, Max: 0, TimeoutMs: 1000, Keys: []string{"k"}, Producers: [][]c17Send{{{Shape: one(1), MD: "a;b"}}, {{Shape: one(1), MD: "a,b"}}}, Concurrent: false})
 	cases = append(cases, &c17Case{Signal: "metrics", Size: 2, Max: 0, TimeoutMs: 1000, Keys: []string{"k"}, Producers: [][]c17Send{{{Shape: one(1), MD: ""}}, {{Shape: one(1), MD: "<empty>"}}}, Concurrent: false})
+	// a downstream that refuses a batch: what arrives afterwards is still flushed by the timer / by size
+	for _, sig := range []string{"logs", "traces", "metrics"} {
+		for _, fails := range [][]int{{1}, {2}, {1, 2}} {
+			cases = append(cases, &c17Case{Signal: sig, Size: 3, Max: 0, TimeoutMs: 1000, SinkFail: fails,
+				Producers: [][]c17Send{{{Shape: one(1)}, {Shape: one(1), WaitMs: 1500}, {Shape: one(1), WaitMs: 1500}}}, Concurrent: false})
+		}
+		cases = append(cases, &c17Case{Signal: sig, Size: 2, Max: 2, TimeoutMs: 1000, SinkFail: []int{1},
+			Producers: [][]c17Send{{{Shape: one(2)}, {Shape: one(1), WaitMs: 200}}}, Concurrent: false})
+	}
 	for _, c := range cases {
 		explore(c, bound, "concurrent")
 	}
